@@ -24,8 +24,14 @@ def variable_window_radii(
     power=0.75,
 ):
     radii = np.power(token_frequency, power - 1)
-    radii /= np.sum(radii * token_frequency)
-    radii = np.append(radii, min(radii) if len(radii) > 0 else 0.0)
+    # tokens of a supplied dictionary that never occur have frequency 0: keep their
+    # infinite power out of the normalisation (they get radius 0)
+    radii[token_frequency <= 0] = 0.0
+    total = np.sum(radii * token_frequency)
+    if total > 0:
+        radii /= total
+    occurring = radii[radii > 0]
+    radii = np.append(radii, min(occurring) if len(occurring) > 0 else 0.0)
     if mask_index is not None:
         radii[mask_index] = 0.0
     result = radii * window_size
